@@ -355,10 +355,18 @@ CLAIMS = {
              'the right values, nodes, points and keyword arguments to the '
              'interpolation / sampling helpers; the (has_out, out_optional) '
              'classification of callables is correct on all signature '
-             'classes.',
-        note='Trusted: ' + TB + '. Not decided: broadcasting and '
-             'vectorisation of user callables, equivalence of mesh-grid and '
-             'point-array conventions (NumPy shape semantics), rounding.'),
+             'classes.  sampling_function / dual_use_func / '
+             'point_collocation are interpreted on 2x2 meshes and 3-point '
+             'arrays with symbolic coordinates for out-of-place, in-place, '
+             'dual-use and vectorize-decorated callables that use all, one '
+             'or no coordinate, take a keyword parameter, or are complex: '
+             'the sampled array holds exactly the function values at the '
+             'points (shape, dtype, out identity).',
+        note='Trusted: ' + TB + '; NumPy shape semantics (indexing, '
+             'broadcasting, reshape) are those of NumPy itself on object '
+             'arrays with symbolic entries.  Not decided: arrays of '
+             'callables (tensor-valued sampling), larger shapes than the '
+             'small concrete ones, rounding.'),
 }
 
 NOT_YET = 'check not implemented yet in this commit (DESIGN.md section 6 build order)'
